@@ -687,6 +687,17 @@ func (w *c11World) idOfBytes(bz []byte) string {
 	if id, ok := w.byBytes[hex.EncodeToString(sum[:])]; ok {
 		return id
 	}
+	// other encoding of a known item? decode and encode it the harness's way
+	if ev, err := bytesToEv(bz); err == nil {
+		if pb, err := types.EvidenceToProto(ev); err == nil {
+			if bz2, err := pb.Marshal(); err == nil {
+				sum2 := sha256.Sum256(bz2)
+				if id, ok := w.byBytes[hex.EncodeToString(sum2[:])]; ok {
+					return id
+				}
+			}
+		}
+	}
 	return "?" + hex.EncodeToString(sum[:4])
 }
 
